@@ -10,7 +10,7 @@ here = os.path.dirname(os.path.dirname(os.path.abspath(__file__)))
 def run(cmd, **kw):
     return subprocess.run(cmd, capture_output=True, text=True, **kw)
 run(['git', '-C', tree, 'checkout', '--', 'slimta'])
-meta = {'property': check_id, 'source': 'independent sub-agent given only the property text and a scratch worktree'}
+meta = {'property': check_id, 'seeded_for': pid, 'source': 'independent sub-agent given only the property text and a scratch worktree'}
 r = run(['/venv/bin/python', '%s/demo.py' % src], cwd=tree); meta['demo_clean_exit'] = r.returncode
 a = run(['git', '-C', tree, 'apply', '%s/patch.diff' % src]); assert a.returncode == 0, a.stderr
 r = run(['/venv/bin/python', '%s/demo.py' % src], cwd=tree); meta['demo_patched_exit'] = r.returncode
@@ -27,7 +27,7 @@ ok = meta['demo_clean_exit'] == 0 and meta['demo_patched_exit'] != 0 and meta['e
 meta['confirmed'] = ok
 print(json.dumps({k_: v for k_, v in meta.items() if k_ != 'needs'}, indent=1))
 if ok:
-    dst = os.path.join(here, 'seeded', '%s-%s%s' % (check_id, os.environ.get('SEED_ROUND', ''), k))
+    dst = os.path.join(here, 'seeded', '%s-%s%s' % (pid, os.environ.get('SEED_ROUND', ''), k))
     os.makedirs(dst, exist_ok=True)
     for f in ('patch.diff', 'demo.py', 'notes.txt'):
         shutil.copy(os.path.join(src, f), dst)
